@@ -4,6 +4,7 @@ import os
 
 from .. import prange as PR
 from ..loader import AnalysisError, norm_stmt
+from ..small import UnrollError, return_cases
 
 KERNEL_MODULES = ["field/summator.pyx", "krige/krigesum.pyx", "variogram/estimator.pyx"]
 WRAPPER_MODULES = ["field/generator.py", "krige/base.py", "variogram/variogram.py"]
@@ -228,7 +229,10 @@ def threads_rules(ctx, rule="R15.3"):
     for rel in KERNEL_MODULES:
         mod = prog.mod(rel)
         fn = prog.func(rel, "set_num_threads")
-        dumps[rel] = ast.dump(fn)
+        try:
+            dumps[rel] = tuple(sorted((tuple(sorted(c)), v) for c, v in return_cases(fn)))
+        except UnrollError as e:
+            raise AnalysisError("set_num_threads of %s is no longer a decision table: %s" % (rel, e))
         # structure: num_threads is None -> (OPENMP -> omp_get_num_procs) ; else -> num_threads
         ok = False
         body = [s for s in fn.body if not isinstance(s, ast.Pass)]
@@ -246,12 +250,12 @@ def threads_rules(ctx, rule="R15.3"):
             )
             rets = [s for s in body if isinstance(s, ast.Return)]
             ok = ok and len(rets) == 1 and isinstance(els[0].targets[0], ast.Name) and ast.unparse(rets[0].value) == els[0].targets[0].id
-            init = [s for s in body if isinstance(s, ast.Assign)]
-            ok = ok and len(init) == 1 and ast.unparse(init[0].value) == "1"
+        # decision table of the function (independent of how the default is initialised or the branches are nested)
+        ok = ok and dumps[rel] == ((("OPENMP", "num_threads is None"), "openmp.omp_get_num_procs()"), (("not OPENMP", "num_threads is None"), "1"), (("num_threads is not None",), "num_threads"))
         ctx.check(ok, rule, rel + "::set_num_threads",
                   "None -> omp_get_num_procs() only under compile-time OPENMP (else 1); explicit value forwarded unchanged", "shape")
         ctx.check("OPENMP" in mod.pyx.compile_time_names, rule, rel, "compile-time name OPENMP guards the openmp cimport", "openmp-guard")
-    ctx.check(len(set(dumps.values())) == 1, rule, "set_num_threads x3", "the three set_num_threads definitions are identical", "identical")
+    ctx.check(len(set(dumps.values())) == 1, rule, "set_num_threads x3", "the three set_num_threads definitions have the same decision table", "identical")
     setup = os.path.join(prog.root, "setup.py")
     if not os.path.exists(setup):
         raise AnalysisError("anchor vanished: setup.py")
@@ -269,6 +273,28 @@ def threads_rules(ctx, rule="R15.3"):
                 exts = vals
     want = sorted(r[:-4].replace("/", ".") for r in KERNEL_MODULES)
     ctx.check(sorted(exts) == want, rule, "setup.py", "every analysed .pyx is a built extension and vice versa: %s" % exts, "setup-exts")
+
+
+def inputs_not_written(ctx, rule="R15.1", files=None):
+    """(f) alone, for the properties whose data a kernel reads: no kernel stores into one of its array parameters (the caller's
+    conditioning vectors / matrices / samples stay what the Python side computed; a `const` dropped from the signature still compiles)."""
+    n = 0
+    for rel in KERNEL_MODULES:
+        if files is not None and rel not in files:
+            continue
+        mod = ctx.prog.mod(rel)
+        for name, fn in sorted(mod.functions.items()):
+            if mod.pyx.functions[name]["kind"] != "def":
+                continue
+            kfn = PR.KernelFn(mod, name, fn)
+            site0 = "%s::%s" % (rel, name)
+            bad = [st for st, tgt, aug in PR.stores_in(fn.body) if isinstance(tgt, ast.Subscript) and PR.base_name(tgt) in kfn.params]
+            for st in bad:
+                ctx.violation(rule, site0, "(f) kernel stores into its input array: %s" % norm_stmt(st), "f:" + norm_stmt(st))
+            n += 1
+            if not bad:
+                ctx.ok(rule, site0, "(f) no array parameter is stored into")
+    ctx.floor(rule, "kernels checked for stores into inputs", n, 1)
 
 
 def run(ctx):
